@@ -418,6 +418,62 @@ def h20_lifetime(S):
     S.check("server-started-then-closed-once", out["log"] == ["start_serving", "close", "wait_closed"], info=str(out["log"]))
 
 
+def h20_rabbit_server_cancel(S):
+    """RabbitMQ cancels a consumer server-side while the worker runs: either the consumer is subscribed again and keeps
+    working (200), or it cannot be and has failed (503) - never a dead consumer behind a 200."""
+    from repid import Job, Router, Worker
+    from repid.converter import BasicConverter
+    from repid.health_check_server import HealthCheckServerSettings
+
+    deleted = S.flag("queue_deleted")
+    t_cancel = S.real("server_cancels_at_s", Fraction(1, 1000), Fraction(300, 1000))
+    ran = []
+    out = {}
+
+    async def main(loop):
+        w = World(backend="rabbit")
+        await w.open(queues=("alpha", "beta"), record=False)
+        r = Router()
+
+        @r.actor(name="a", queue="alpha", converter=BasicConverter)
+        async def a(i: int):
+            ran.append(("a", i))
+
+        @r.actor(name="b", queue="beta", converter=BasicConverter)
+        async def b(i: int):
+            ran.append(("b", i))
+
+        worker = Worker(routers=[r], handle_signals=[], _connection=w.conn, graceful_shutdown_time=1.0, run_health_check_server=True,
+                        health_check_server_settings=HealthCheckServerSettings(address="127.0.0.1", port=8099, endpoint_name="/healthz"))
+        task = asyncio.create_task(worker.run())
+        await asyncio.sleep(t_cancel)
+        out["before"] = _probe(loop.servers[0], [VALID]) if loop.servers else "refused"
+        if deleted:
+            w.srv.delete_queue("alpha")
+        else:
+            w.srv.cancel_consumers("alpha")
+        await asyncio.sleep(Fraction(1, 2))
+        if not deleted:
+            await Job("a", queue="alpha", args={"i": 1}, id_="a1", _connection=w.conn).enqueue()
+        await Job("b", queue="beta", args={"i": 2}, id_="b1", _connection=w.conn).enqueue()
+        await asyncio.sleep(Fraction(1, 2))
+        out["running"] = not task.done()
+        out["after"] = _probe(loop.servers[0], [VALID]) if loop.servers else "refused"
+        task.cancel()
+        await asyncio.gather(task, return_exceptions=True)
+
+    run_async(main)
+    S.cover("server-side-cancel")
+    S.check("healthy-while-all-consumers-alive", out["before"] == "200", info=str(out["before"]))
+    S.check("other-queue-keeps-being-served", ("b", 2) in ran and out["running"], info=f"ran={ran} running={out['running']}")
+    if deleted:
+        S.check("unhealthy-after-a-consumer-failed", out["after"] == "503", info=f"queue deleted, its consumer cannot subscribe again: endpoint answered {out['after']}")
+    else:
+        alive = ("a", 1) in ran
+        S.check("200-means-the-consumer-is-alive", (out["after"] == "200") == alive and (alive or out["after"] == "503"),
+                info=f"after the server-side cancel a job for the queue was {'run' if alive else 'not run'}, endpoint answered {out['after']}")
+
+
 HARNESSES = [
     strx.as_harness("H20-parse-ok", _parse("OK"), replay_parse("OK"),
                     bounds={"request": "every decoded string (unbounded length), or bytes that fail to decode", "status": "OK"},
@@ -444,6 +500,12 @@ HARNESSES = [
     Harness(name="H20-fail-near-stop", scenario=h20_fail_near_stop, workers=8,
             bounds={"consumer failure / stop signal": "each delayed by 0..4 event-loop steps relative to the same instant; asserted when the failure is not after the stop request", "in-flight job": "60 ms, graceful period 1 s"},
             functions=["_runner.py:_Runner.run_one_queue"], covers=["fail-near-stop", "probed-while-finishing"]),
+    Harness(name="H20-rabbit-server-cancel", scenario=h20_rabbit_server_cancel, workers=4,
+            bounds={"worker": "two RabbitMQ queues, health server on", "server-side cancel of one queue's consumer": "at any real time in [1 ms, 300 ms] after start",
+                    "cause": "the queue was deleted (no new subscription possible) / the queue stays"},
+            functions=["connections/rabbitmq/consumer.py:_RabbitConsumer.consume", "connections/rabbitmq/consumer.py:_RabbitConsumer.start",
+                       "connections/rabbitmq/utils.py:_Consumers.pop", "_runner.py:_Runner.run_one_queue"],
+            covers=["server-side-cancel"], stubs=["fake AMQP server: Basic.Cancel from the server, basic.consume on a missing queue fails like RabbitMQ (404 NOT_FOUND)"]),
     Harness(name="H20-lifetime", scenario=h20_lifetime, workers=8,
             bounds={"job duration": "any real in [1, 10] ms", "probe": "at any real instant in [0, 12] ms", "worker": "messages_limit=1; optionally run a second time"},
             functions=["worker.py:Worker.run", "health_check_server.py:HealthCheckServer.stop"], covers=["lifetime", "probed-while-running"]),
